@@ -23,6 +23,8 @@ pub struct Case {
     /// removal batch lands among them, for both directions
     pub chunks: [usize; 2],
     pub removal_pos: [usize; 2],
+    /// which wall clock the process shows while the case runs (see `model::with_wall`)
+    pub wall: u8,
 }
 
 pub struct C05;
@@ -55,11 +57,12 @@ impl Prop for C05 {
         let purge = [src.chance(1, 2), src.chance(1, 2)];
         let chunks = [1 + src.below(3), 1 + src.below(3)];
         let removal_pos = [src.below(4), src.below(4)];
-        Case { pool, plans, purge, chunks, removal_pos }
+        let wall = src.below(3) as u8;
+        Case { pool, plans, purge, chunks, removal_pos, wall }
     }
 
     fn run(&self, case: &Case) -> Outcome {
-        run(case)
+        crate::model::with_wall(case.wall, || run(case))
     }
 
     fn describe(&self, case: &Case) -> Value {
@@ -69,6 +72,7 @@ impl Prop for C05 {
             "purge_before_diff": case.purge,
             "fetch_chunks": case.chunks,
             "removal_batch_position": case.removal_pos,
+            "wall_clock_of_the_process": (["real", "1 h after the datacake epoch (all stamps in the future)", "60 000 000 s after the datacake epoch"][case.wall as usize % 3]),
         })
     }
 
